@@ -1,6 +1,6 @@
 (* Extraction of the executable model and acceptors to OCaml (ExtrOcamlBasic only). *)
 From Coq Require Import ExtrOcamlBasic.
-From W Require Import model.Base model.Fnv model.Utf8 model.Sanitize model.WalKey model.Engine model.EngineCfg spec.Queue spec.Crash model.Frame spec.FrameSpec model.Map model.Bincode model.Meta model.Adapter model.RaftStore spec.RaftSpec model.Hdr spec.Damage model.Durable spec.PowerLoss model.Clean spec.CleanSpec model.Trk model.Cluster model.ClusterSys spec.StreamSpec spec.ClusterClass model.Conc spec.ConcSpec.
+From W Require Import model.Base model.Fnv model.Utf8 model.Sanitize model.WalKey model.Engine model.EngineCfg model.EngineKnown spec.Queue spec.Crash model.Frame spec.FrameSpec model.Map model.Bincode model.Meta model.Adapter model.RaftStore spec.RaftSpec model.Hdr spec.Damage model.Durable spec.PowerLoss model.Clean spec.CleanSpec model.Trk model.Cluster model.ClusterSys spec.StreamSpec spec.ClusterClass model.Conc spec.ConcSpec.
 Extraction "model.ml"
   N.add N.mul N.div N.modulo N.eqb N.ltb N.leb N.sub N.of_nat N.to_nat
   checksum64 utf8_encode utf8_decode
@@ -8,7 +8,7 @@ Extraction "model.ml"
   wal_key parse_wal_key
   real_cfg small_cfg init step unmodelled any_unmodelled
   c01_ok c03_ok c15_ok c02b_ok c02c_ok c06alo_ok
-  c07_ok c08_ok c09_strict_ok c09_alo_ok batch_crash stream_of id_drift
+  c07_ok c08_ok c09_strict_ok c09_alo_ok batch_crash stream_of id_drift stale_tail_b
   serve_v0 serve_fixed split_frames responses resp_text enc_resp classify_frame c24_ok c24_known c24_rt_ok
   text_frame put_line get_line enc_frames
   str_cmp of_list enc_cmd dec_cmd enc_cluster dec_cluster m_init apply apply_fx snapshot restore get_topic_state visible snap_item
